@@ -84,7 +84,7 @@ def specStep (t : Table) (k : Nat) (rc : Bool) : Op → Option Table
   | .merge others =>
     if ∀ b ∈ others, b.k = k ∧ b.rc = rc then some ((others.map Arr.abs).foldl Table.concat t) else none
   | .delete names =>
-    if names = [] ∨ names.length = t.names.length ∨ ∃ n ∈ names, n ∉ t.names then none
+    if names = [] ∨ names.eraseDups.length = t.names.length ∨ ∃ n ∈ names, n ∉ t.names then none
     else some (t.deleteSamples names)
   | .weed wk rev tf famb ft mask gaps =>
     let t1 := match wk with
@@ -101,7 +101,7 @@ theorem specStep_merge (t : Table) (k : Nat) (rc : Bool) (others : List Arr) :
 
 theorem specStep_delete (t : Table) (k : Nat) (rc : Bool) (names : List String) :
     specStep t k rc (.delete names)
-      = if names = [] ∨ names.length = t.names.length ∨ ∃ n ∈ names, n ∉ t.names then none
+      = if names = [] ∨ names.eraseDups.length = t.names.length ∨ ∃ n ∈ names, n ∉ t.names then none
         else some (t.deleteSamples names) := rfl
 
 theorem specStep_weed (t : Table) (k : Nat) (rc : Bool) (wk : Option (List Nat)) (rev : Bool) (tf : Nat)
@@ -197,7 +197,7 @@ theorem step_spec (W : Nat) (a : Arr) (op : Op) (hg : Good a) (hop : OpGood op) 
       exact if_pos this
     | some a' =>
       refine Or.inr ⟨a', hd, ?_, ?_, ?_, ?_⟩
-      · have hne : ¬ (names = [] ∨ names.length = a.names.length ∨ ∃ n ∈ names, n ∉ a.names) := by
+      · have hne : ¬ (names = [] ∨ names.eraseDups.length = a.names.length ∨ ∃ n ∈ names, n ∉ a.names) := by
           intro h
           rw [(Props.C08.T08_refuse a names).mpr h] at hd
           cases hd
@@ -428,7 +428,7 @@ theorem specStep_equiv {s t : Table} (h : s.Equiv t) (hs : Table.WF s) (k : Nat)
       exact True.intro
   | delete names =>
     rw [specStep_delete, specStep_delete, h.1]
-    by_cases hc : names = [] ∨ names.length = t.names.length ∨ ∃ n ∈ names, n ∉ t.names
+    by_cases hc : names = [] ∨ names.eraseDups.length = t.names.length ∨ ∃ n ∈ names, n ∉ t.names
     · rw [if_pos hc, if_pos hc]; exact True.intro
     · rw [if_neg hc, if_neg hc]
       exact deleteSamples_equiv h names
